@@ -60,3 +60,18 @@ pub proof fn lemma_blks_prefix_span(bs: Seq<PreflateTokenBlock>, k: int)
         lemma_toks_span_nonneg(bs[k].tokens@);
     }
 }
+
+pub proof fn lemma_blks_span_step(bs: Seq<PreflateTokenBlock>, k: int)
+    requires 0 <= k < bs.len(),
+    ensures blks_span(bs.subrange(0, k + 1)) == blks_span(bs.subrange(0, k)) + blk_span(bs[k]),
+        blks_span(bs.subrange(0, k + 1)) <= blks_span(bs), blk_span(bs[k]) >= 0,
+    decreases bs.len() - k
+{
+    assert(bs.subrange(0, k + 1).drop_last() =~= bs.subrange(0, k));
+    assert(bs.subrange(0, k + 1).last() == bs[k]);
+    lemma_toks_span_nonneg(bs[k].tokens@);
+    if k + 1 == bs.len() { assert(bs.subrange(0, k + 1) =~= bs); } else {
+        lemma_blks_span_step(bs, k + 1);
+        lemma_blks_span_nonneg(bs.subrange(0, k + 1));
+    }
+}
